@@ -272,18 +272,73 @@ Fixpoint read_extra (fuel : nat) (c : chain) (buf : bytes) : io (bytes * chain) 
       end
   end.
 
-(* Decoder::read_line; [fuel] bounds the loops of read_until / read_extra *)
+(* [high] of Decoder::read_line: the byte the extra-byte loop pushed onto
+   read_buf (`break Some(byte)`), None when the stream had ended (`break None`);
+   read off read_buf: the loop pushes that byte and nothing else *)
+Definition pushed (before after : bytes) : option Z := nth_error after (length before).
+
+Inductive flow := Break | Continue.
+
+(* the body of the `while` of Decoder::read_line, entered when read_until has
+   appended something and read_buf ends with b'\n' ([buf] is read_buf):
+     let len = self.read_buf.len();
+     match self.encoding {
+         Encoding::Utf8 => break,
+         Encoding::Utf16BE => { if len % 2 == 0 && self.read_buf[len - 2] == 0 { break; } }
+         Encoding::Utf16LE if len % 2 == 0 => {}      // the b'\n' is the high byte of its unit
+         Encoding::Utf16LE => {
+             let high = loop { ... };                  // read_extra above
+             if matches!(high, Some(0) | None) { break; } } }
+   In UTF-16 a byte 0x0A ends the line only as a code unit of its own.  The
+   index read_buf[len - 2] is a panic point of the model. *)
+Definition line_step (fuel : nat) (e : encoding) (c : chain) (buf : bytes) : io (flow * bytes * chain) :=
+  let len := length buf in
+  match e with
+  | Utf8 => IoDone (Break, buf, c)
+  | Utf16BE =>
+      if Nat.even len then
+        match nth_error buf (len - 2) with
+        | Some b => IoDone (if b =? 0 then Break else Continue, buf, c)
+        | None => IoPanic 1
+        end
+      else IoDone (Continue, buf, c)
+  | Utf16LE =>
+      if Nat.even len then IoDone (Continue, buf, c)
+      else
+        io_bind (read_extra fuel c buf) (fun '(buf', c') =>
+          IoDone (match pushed buf buf' with
+                  | Some Z0 | None => Break
+                  | Some _ => Continue
+                  end, buf', c'))
+  end.
+
+(* the `while` of Decoder::read_line:
+     while self.inner.read_until(b'\n', &mut self.read_buf)? > 0 && self.read_buf.ends_with(b"\n") { body }
+   read_until appends to read_buf, so a line may be assembled from several
+   calls; [n] bounds the iterations (every one that goes on has taken at least
+   one byte from the reader), [fuel] the loops of read_until / read_extra *)
+Fixpoint read_line_loop (n fuel : nat) (e : encoding) (c : chain) (buf : bytes) : io (bytes * chain) :=
+  match n with
+  | O => IoFuel
+  | S m =>
+      io_bind (chain_read_until fuel LF c buf) (fun '(buf1, c1) =>
+        if (length buf <? length buf1)%nat && ends_with_lf buf1 then
+          io_bind (line_step fuel e c1 buf1) (fun '(k, buf2, c2) =>
+            match k with
+            | Break => IoDone (buf2, c2)
+            | Continue => read_line_loop m fuel e c2 buf2
+            end)
+        else IoDone (buf1, c1))
+  end.
+
+(* Decoder::read_line: read_buf.clear(); the loop; None if read_buf is empty *)
 Definition read_line (fuel : nat) (d : decoder) : io (option str * decoder) :=
-  io_bind (chain_read_until fuel LF (inner d) []) (fun '(buf, r) =>
+  io_bind (read_line_loop fuel fuel (enc d) (inner d) []) (fun '(buf, c) =>
     match buf with
-    | [] => IoDone (None, mkDecoder r [] (enc d))
+    | [] => IoDone (None, mkDecoder c [] (enc d))
     | _ :: _ =>
-        io_bind
-          (if enc_is_le (enc d) && ends_with_lf buf then read_extra fuel r buf
-           else IoDone (buf, r))
-          (fun '(buf', r') =>
-             let d' := mkDecoder r' buf' (enc d) in
-             io_bind (curr_line d') (fun l => IoDone (Some l, d')))
+        let d' := mkDecoder c buf (enc d) in
+        io_bind (curr_line d') (fun l => IoDone (Some l, d'))
     end).
 
 (* ---------- the way decode.rs consumes lines ---------- *)
@@ -342,19 +397,40 @@ Fixpoint split_line (d : Z) (l : bytes) : bytes * bytes :=
   | x :: t => if x =? d then ([x], t) else let '(a, b) := split_line d t in (x :: a, b)
   end.
 
-(* the raw buffer of the next line and the unread remainder; in UTF-16LE the
-   byte after a 0x0A belongs to the line if there is one *)
+(* UTF-16: the code unit U+000A, low byte first (LE) or high byte first (BE) *)
+Definition is_lf_unit (le : bool) (x y : Z) : bool :=
+  if le then (x =? LF) && (y =? 0) else (x =? 0) && (y =? LF).
+
+(* a UTF-16 stream is cut behind the first code unit U+000A at a unit boundary.
+   [st]: None at a unit boundary, Some x when x is the first byte of the current
+   unit.  A byte 0x0A inside another unit (U+4E0A, U+0A41, U+010A, a surrogate),
+   or at a misaligned position of a malformed stream, does not end the line; a
+   lone last byte of a stream of odd length belongs to the last line. *)
+Fixpoint scan16 (le : bool) (st : option Z) (b : bytes) : bytes * bytes :=
+  match b with
+  | [] => ([], [])
+  | y :: t =>
+      match st with
+      | None => let '(a, r) := scan16 le (Some y) t in (y :: a, r)
+      | Some x =>
+          if is_lf_unit le x y then ([y], t)
+          else let '(a, r) := scan16 le None t in (y :: a, r)
+      end
+  end.
+
+Definition raw_split (e : encoding) (b : bytes) : bytes * bytes :=
+  match e with
+  | Utf8 => split_line LF b
+  | Utf16LE => scan16 true None b
+  | Utf16BE => scan16 false None b
+  end.
+
+(* the raw buffer of the next line and the unread remainder *)
 Definition next_raw (e : encoding) (b : bytes) : option (bytes * bytes) :=
-  let '(l, r) := split_line LF b in
+  let '(l, r) := raw_split e b in
   match l with
   | [] => None
-  | _ :: _ =>
-      if enc_is_le e && ends_with_lf l then
-        match r with
-        | [] => Some (l, [])
-        | y :: r' => Some (l ++ [y], r')
-        end
-      else Some (l, r)
+  | _ :: _ => Some (l, r)
   end.
 
 Fixpoint lines_pure (n : nat) (e : encoding) (b : bytes) : io (list str) :=
